@@ -3,26 +3,16 @@
    Definitions only.  Built on the decoder model of C17/Model.v (dec, read_prim, copy,
    has_bytes): every decoder call of the Go code is one of the d_* wrappers below.
 
-   The code is modelled AS CODED.  Each proposed repair (fixes/C17-ipp-*.patch) is a
-   boolean switch of [fixes]; [as_coded] (all false) is what the correspondence run
-   compares with /repo, [patched] (all true) is the code after all repairs.
+   The code is modelled as it is after the fix: commits 02601aa (missing end tag),
+   2160ad7 (boolean), 4b2729a (integer 1setOf), b5970f8 (rangeOfInteger), 9cbf4b3
+   (uninterpreted value tags) and 544d664 (print job, non-string attributes).
 
    Numbers are [Z]: bytes read by Byte() are 0..255, Int16()/Int32() results are the
-   signed values.  Loops are on explicit fuel ([RFuel] = out of fuel). *)
+   signed values.  Loops are on explicit fuel ([RFuel] = out of fuel); IppProofs.v shows
+   that [fuel_for] suffices for every body and that more fuel never changes a result. *)
 From HT Require Import Common.Bytes C17.Model.
 From Coq Require Import String Ascii.
 Open Scope Z_scope.
-
-Record fixes := mkFixes {
-  fx_bool : bool;      (* C17-ipp-boolean-decode.patch *)
-  fx_int : bool;       (* C17-ipp-integer-1setof.patch *)
-  fx_range : bool;     (* C17-ipp-range-of-integer.patch *)
-  fx_unknown : bool;   (* C17-ipp-unknown-value-tag.patch *)
-  fx_endtag : bool;    (* C17-ipp-missing-end-tag.patch *)
-  fx_printjob : bool   (* C17-ipp-print-job-nonstring.patch *)
-}.
-Definition as_coded : fixes := mkFixes false false false false false false.
-Definition patched : fixes := mkFixes true true true true true true.
 
 (* ---- decoder calls used by the IPP code (services/decoder) ---- *)
 Definition d_byte (d : dec) : dec * Z := read_prim d 1 false false.
@@ -113,13 +103,13 @@ Definition enc_msg (m : msg) : bytes :=
 Definition enc_request (m : msg) : bytes := enc_msg m ++ m_data m.
 
 (* ---- value decoders (values.go) ---- *)
-Inductive res (A : Type) := ROk (a : A) | RErr | RPanic | RFuel.
-Arguments ROk {A} a.  Arguments RErr {A}.  Arguments RPanic {A}.  Arguments RFuel {A}.
+Inductive res (A : Type) := ROk (a : A) | RErr | RFuel.
+Arguments ROk {A} a.  Arguments RErr {A}.  Arguments RFuel {A}.
 
-(* The "additional values" loop shared by the value decoders.  Entered with the
+(* The "additional values" loop of valInt / valStr / valBool.decode.  Entered with the
    look-ahead byte [vtag] already read:
-     for cont(vtag) { if l := Int16(); l == 0 { v := rd(); vtag = Byte() }
-                      else { Seek(-2); break } }
+     for vtag == v.tag { if l := Int16(); l == 0 { v := rd(); vtag = Byte() }
+                         else { Seek(-2); break } }
    [None] = out of fuel. *)
 Fixpoint more {V} (rd : dec -> dec * V) (cont : Z -> bool) (fuel : nat)
          (d : dec) (vtag : Z) (acc : list V) : option (dec * list V) :=
@@ -145,68 +135,29 @@ Definition tail_vals {V} (rd : dec -> dec * V) (cont : Z -> bool) (fuel : nat)
   | None => None
   end.
 
-(* value readers: value-length field then the value *)
+(* value readers: value-length field (read away) then the value *)
 Definition rd_int (d : dec) : dec * Z := let '(d1, _) := d_int16 d in d_int32 d1.
 Definition rd_str (d : dec) : dec * bytes := d_getdata d.
 Definition is_one (b : Z) : bool := b =? 1.
-(* as coded: the 2-byte value length is read with one Byte() for the first value and
-   not at all for an additional value *)
-Definition rd_bool_first_coded (d : dec) : dec * bool :=
-  let '(d1, _) := d_byte d in let '(d2, b) := d_byte d1 in (d2, is_one b).
-Definition rd_bool_more_coded (d : dec) : dec * bool :=
-  let '(d1, b) := d_byte d in (d1, is_one b).
 Definition rd_bool (d : dec) : dec * bool :=
   let '(d1, _) := d_int16 d in let '(d2, b) := d_byte d1 in (d2, is_one b).
 
-(* valStr.decode *)
-Definition dec_str (fuel : nat) (d : dec) (tag : Z) : option (dec * attr) :=
+(* the common shape of valInt / valStr / valBool.decode: name, first value, additional
+   values; the three Go functions differ in the value reader only *)
+Definition dec_multi {V} (rd : dec -> dec * V) (mk : bytes -> list V -> attr)
+           (fuel : nat) (d : dec) (tag : Z) : option (dec * attr) :=
   let '(d1, name) := d_getdata d in
-  let '(d2, v) := rd_str d1 in
-  match tail_vals rd_str (Z.eqb tag) fuel d2 [v] with
-  | Some (d3, vs) => Some (d3, AStr tag name vs)
+  let '(d2, v) := rd d1 in
+  match tail_vals rd (Z.eqb tag) fuel d2 [v] with
+  | Some (d3, vs) => Some (d3, mk name vs)
   | None => None
   end.
 
-(* valInt.decode as coded: at most one additional value, no loop *)
-Definition dec_int_coded (d : dec) (tag : Z) : dec * attr :=
-  let '(d1, name) := d_getdata d in
-  let '(d2, v1) := rd_int d1 in
-  let '(d3, vtag) := d_byte d2 in
-  if vtag =? tag then
-    let '(d4, l) := d_int16 d3 in
-    if l =? 0 then
-      let '(d5, v2) := rd_int d4 in (d5, AInt tag name [v1; v2])
-    else (d_seek d4 (-3), AInt tag name [v1])
-  else (d_seek d3 (-1), AInt tag name [v1]).
+Definition dec_str (fuel : nat) (d : dec) (tag : Z) := dec_multi rd_str (AStr tag) fuel d tag.
+Definition dec_int (fuel : nat) (d : dec) (tag : Z) := dec_multi rd_int (AInt tag) fuel d tag.
+Definition dec_bool (fuel : nat) (d : dec) (tag : Z) := dec_multi rd_bool (ABool tag) fuel d tag.
 
-(* valInt.decode after C17-ipp-integer-1setof.patch: same loop as valStr *)
-Definition dec_int_fixed (fuel : nat) (d : dec) (tag : Z) : option (dec * attr) :=
-  let '(d1, name) := d_getdata d in
-  let '(d2, v) := rd_int d1 in
-  match tail_vals rd_int (Z.eqb tag) fuel d2 [v] with
-  | Some (d3, vs) => Some (d3, AInt tag name vs)
-  | None => None
-  end.
-
-(* valBool.decode as coded: loops while the look-ahead byte DIFFERS from the tag *)
-Definition dec_bool_coded (fuel : nat) (d : dec) (tag : Z) : option (dec * attr) :=
-  let '(d1, name) := d_getdata d in
-  let '(d2, b) := rd_bool_first_coded d1 in
-  match tail_vals rd_bool_more_coded (fun vt => negb (vt =? tag)) fuel d2 [b] with
-  | Some (d3, vs) => Some (d3, ABool tag name vs)
-  | None => None
-  end.
-
-(* valBool.decode after C17-ipp-boolean-decode.patch *)
-Definition dec_bool_fixed (fuel : nat) (d : dec) (tag : Z) : option (dec * attr) :=
-  let '(d1, name) := d_getdata d in
-  let '(d2, b) := rd_bool d1 in
-  match tail_vals rd_bool (Z.eqb tag) fuel d2 [b] with
-  | Some (d3, vs) => Some (d3, ABool tag name vs)
-  | None => None
-  end.
-
-(* valRangeInt.decode (reached only after C17-ipp-range-of-integer.patch) *)
+(* valRangeInt.decode *)
 Definition dec_range (d : dec) (tag : Z) : dec * attr :=
   let '(d1, name) := d_getdata d in
   let '(d2, _) := d_int16 d1 in
@@ -215,32 +166,29 @@ Definition dec_range (d : dec) (tag : Z) : dec * attr :=
   (d4, ARange tag name lo hi).
 
 (* ---- attribGroup.decode (group.go) ---- *)
-Inductive kind := KInt | KBool | KStr | KRange | KNil.
+Inductive kind := KInt | KBool | KStr | KRange.
 
-(* the switch on the value tag: which ValueType is allocated (KNil: none, v stays nil) *)
-Definition kind_of (fx : fixes) (vtag : Z) : kind :=
+(* the switch on the value tag: which ValueType is allocated (default: valStr) *)
+Definition kind_of (vtag : Z) : kind :=
   if (vtag =? V_INT) || (vtag =? V_ENUM) then KInt
   else if vtag =? V_BOOL then KBool
-  else if (vtag =? V_KEYWORD) || (vtag =? V_CHARSET) || (vtag =? V_URI) || (vtag =? V_LANG)
-          || (vtag =? V_MIME) || (vtag =? V_TEXT) || (vtag =? V_NAME) then KStr
-  else if vtag =? V_RANGE then (if fx_range fx then KRange else KInt)
-  else if fx_unknown fx then KStr else KNil.
+  else if vtag =? V_RANGE then KRange
+  else KStr.
 
 Definition lift {A} (o : option A) : res A := match o with Some a => ROk a | None => RFuel end.
 
 (* v.decode(dec) - the error it returns is dropped by the caller *)
-Definition dec_value (fx : fixes) (n : nat) (d : dec) (vtag : Z) : res (dec * attr) :=
-  match kind_of fx vtag with
-  | KInt => if fx_int fx then lift (dec_int_fixed n d vtag) else ROk (dec_int_coded d vtag)
-  | KBool => if fx_bool fx then lift (dec_bool_fixed n d vtag) else lift (dec_bool_coded n d vtag)
+Definition dec_value (n : nat) (d : dec) (vtag : Z) : res (dec * attr) :=
+  match kind_of vtag with
+  | KInt => lift (dec_int n d vtag)
+  | KBool => lift (dec_bool n d vtag)
   | KStr => lift (dec_str n d vtag)
   | KRange => ROk (dec_range d vtag)
-  | KNil => RPanic   (* method call on a nil ValueType *)
   end.
 
 (* for vtag := Byte(); vtag > 5; vtag = Byte() { if LastError != nil {return err}; ... }
    Seek(-1).  [racc] is ag.val reversed; [n] is the fuel handed to the value loops. *)
-Fixpoint dec_group_loop (fx : fixes) (n fuel : nat) (d : dec) (racc : list attr)
+Fixpoint dec_group_loop (n fuel : nat) (d : dec) (racc : list attr)
   : res (dec * list attr) :=
   let '(d1, vtag) := d_byte d in
   if vtag >? 5 then
@@ -248,17 +196,17 @@ Fixpoint dec_group_loop (fx : fixes) (n fuel : nat) (d : dec) (racc : list attr)
     | O => RFuel
     | S f =>
         if d_err d1 then RErr else
-        match dec_value fx n d1 vtag with
-        | ROk (d2, a) => dec_group_loop fx n f d2 (a :: racc)
-        | RErr => RErr | RPanic => RPanic | RFuel => RFuel
+        match dec_value n d1 vtag with
+        | ROk (d2, a) => dec_group_loop n f d2 (a :: racc)
+        | RErr => RErr | RFuel => RFuel
         end
     end
   else ROk (d_seek d1 (-1), rev racc).
 
 (* ---- ippMsg.decode (message.go) ---- *)
-(* for dtag := Byte(); dtag != 3; dtag = Byte() { group.decode; append }
-   After C17-ipp-missing-end-tag.patch the body starts with a LastError check. *)
-Fixpoint dec_msg_loop (fx : fixes) (n fuel : nat) (d : dec) (racc : list group)
+(* for dtag := Byte(); dtag != 3; dtag = Byte() {
+     if LastError != nil {return err}; group.decode; append } *)
+Fixpoint dec_msg_loop (n fuel : nat) (d : dec) (racc : list group)
   : res (dec * list group) :=
   let '(d1, dtag) := d_byte d in
   if dtag =? T_END then ROk (d1, rev racc)
@@ -266,25 +214,25 @@ Fixpoint dec_msg_loop (fx : fixes) (n fuel : nat) (d : dec) (racc : list group)
     match fuel with
     | O => RFuel
     | S f =>
-        if fx_endtag fx && d_err d1 then RErr else
-        match dec_group_loop fx n n d1 [] with
-        | ROk (d2, attrs) => dec_msg_loop fx n f d2 (mkGroup dtag attrs :: racc)
-        | RErr => RErr | RPanic => RPanic | RFuel => RFuel
+        if d_err d1 then RErr else
+        match dec_group_loop n n d1 [] with
+        | ROk (d2, attrs) => dec_msg_loop n f d2 (mkGroup dtag attrs :: racc)
+        | RErr => RErr | RFuel => RFuel
         end
     end.
 
-Definition dec_msg (fx : fixes) (n : nat) (raw : bytes) : res msg :=
+Definition dec_msg (n : nat) (raw : bytes) : res msg :=
   let d := new_decoder raw in
   let '(d1, maj) := d_byte d in
   let '(d2, mi) := d_byte d1 in
   let '(d3, op) := d_int16 d2 in
   let '(d4, rid) := d_int32 d3 in
-  match dec_msg_loop fx n n d4 [] with
+  match dec_msg_loop n n d4 [] with
   | ROk (d5, gs) =>
       let '(d6, v) := copy d5 (avail d5) in
       if d_err d6 then RErr
       else ROk (mkMsg maj mi op rid (gs ++ [mkGroup T_END []]) (val_bytes v))
-  | RErr => RErr | RPanic => RPanic | RFuel => RFuel
+  | RErr => RErr | RFuel => RFuel
   end.
 
 (* ---- ippHandler (message.go) and the reply/event of ipp.go ---- *)
@@ -330,11 +278,11 @@ Definition op_echo (gs : list group) : list group :=
 Record pj := mkPj { pj_uri : bytes; pj_user : bytes; pj_format : bytes; pj_job : bytes }.
 Definition pj_empty := mkPj [] [] [] [].
 
-(* setPrintJobResponse: walks the first operation group; [None] = nil dereference
-   (v, _ := val.( *valStr ); v.name) on a value that is not a valStr *)
-Fixpoint pj_scan (fx : fixes) (l : list attr) (p : pj) : option pj :=
+(* setPrintJobResponse: walks the first operation group; values that are not valStr
+   are skipped *)
+Fixpoint pj_scan (l : list attr) (p : pj) : pj :=
   match l with
-  | [] => Some p
+  | [] => p
   | AStr _ name vals :: r =>
       let v0 := hd [] vals in
       let p' :=
@@ -343,44 +291,42 @@ Fixpoint pj_scan (fx : fixes) (l : list attr) (p : pj) : option pj :=
         else if eqb_bytes name N_FORMAT then mkPj (pj_uri p) (pj_user p) v0 (pj_job p)
         else if eqb_bytes name N_JOB then mkPj (pj_uri p) (pj_user p) (pj_format p) v0
         else p in
-      pj_scan fx r p'
-  | _ :: r => if fx_printjob fx then pj_scan fx r p else None
+      pj_scan r p'
+  | _ :: r => pj_scan r p
   end.
 
-Definition print_job_fields (fx : fixes) (gs : list group) : option pj :=
+Definition print_job_fields (gs : list group) : pj :=
   match find is_op_group gs with
-  | Some g => pj_scan fx (g_attrs g) pj_empty
-  | None => Some pj_empty
+  | Some g => pj_scan (g_attrs g) pj_empty
+  | None => pj_empty
   end.
 
 (* What one HTTP POST produces: the reply body and the event fields ipp.uri, ipp.user,
-   ipp.job-name, ipp.data; or no reply at all (Handle returned the decode error); or a
-   panic in the handler goroutine; or no return (out of fuel). *)
+   ipp.job-name, ipp.data; or no reply at all (Handle returned the decode error); or no
+   return (out of fuel - excluded by IppProofs.dec_msg_terminates). *)
 Inductive hres :=
 | HReply (body uri user job data : bytes)
-| HNoReply | HPanic | HHang.
+| HNoReply | HHang.
 
-Definition reply_of (body : msg) (extra : list group) (p : pj) : hres :=
-  let r := mkMsg (m_maj body) (m_min body) 0 (m_reqid body)
-                 (op_echo (m_groups body) ++ extra ++ [mkGroup T_END []]) [] in
+(* the response message of ippHandler and its extra fields *)
+Definition response_of (body : msg) : msg * pj :=
+  let op := m_op body in
+  let extra :=
+    if op =? OP_GET_PRINTER_ATTR then [printer_model]
+    else if op =? OP_CUPS_GET_DEVICES then [mkGroup T_PRINTER []]
+    else [] in
+  let p := if op =? OP_PRINT_JOB then print_job_fields (m_groups body) else pj_empty in
+  (mkMsg (m_maj body) (m_min body) 0 (m_reqid body)
+         (op_echo (m_groups body) ++ extra ++ [mkGroup T_END []]) (m_data body), p).
+
+Definition handle_msg (body : msg) : hres :=
+  let '(r, p) := response_of body in
   HReply (enc_msg r) (pj_uri p) (pj_user p) (pj_job p) (m_data body).
 
-Definition handle_msg (fx : fixes) (body : msg) : hres :=
-  let op := m_op body in
-  if op =? OP_GET_PRINTER_ATTR then reply_of body [printer_model] pj_empty
-  else if op =? OP_PRINT_JOB then
-    match print_job_fields fx (m_groups body) with
-    | Some p => reply_of body [] p
-    | None => HPanic
-    end
-  else if op =? OP_CUPS_GET_DEVICES then reply_of body [mkGroup T_PRINTER []] pj_empty
-  else reply_of body [] pj_empty.
-
-Definition handler (fx : fixes) (n : nat) (raw : bytes) : hres :=
-  match dec_msg fx n raw with
-  | ROk body => handle_msg fx body
+Definition handler (n : nat) (raw : bytes) : hres :=
+  match dec_msg n raw with
+  | ROk body => handle_msg body
   | RErr => HNoReply
-  | RPanic => HPanic
   | RFuel => HHang
   end.
 
